@@ -45,6 +45,19 @@ struct Broadcast {
     panics: Vec<usize>,
     #[serde(default)]
     extend: bool,
+    /// The panic of index 0 carries a payload whose destructor panics itself.
+    #[serde(default)]
+    bomb: bool,
+}
+
+/// Panic payload whose destructor panics (unless the thread is already unwinding).
+struct Bomb;
+impl Drop for Bomb {
+    fn drop(&mut self) {
+        if !std::thread::panicking() {
+            panic!("{} (destructor of a panic payload)", loopdrv::INJECTED_PANIC);
+        }
+    }
 }
 
 #[derive(Deserialize, Clone, Debug)]
@@ -124,19 +137,30 @@ fn pool_scenario(history: &[Broadcast], prop: Option<&str>) {
             threads[index].store(log::thread_index() as usize, SeqCst);
             cells[index].0.with_mut(|p| unsafe { *p = 1000 * (bi + 1) + index });
             if b.panics.contains(&index) {
+                if b.bomb && index == 0 {
+                    std::panic::panic_any(Bomb);
+                }
                 panic!("{}", loopdrv::INJECTED_PANIC);
             }
             10 * index + bi
         };
 
         let mut results: Vec<Option<usize>> = Vec::new();
-        if b.extend {
-            results.push(Some(424242)); // pre-existing element must be preserved
-            pool.par_extend(&mut results, n, &body);
-        } else {
-            pool.broadcast(n, |i| {
-                body(i);
-            });
+        // A payload whose destructor panics makes `broadcast` itself unwind (after
+        // it has waited for the workers); the oracles below apply all the same.
+        let unwound = std::panic::catch_unwind(std::panic::AssertUnwindSafe(|| {
+            if b.extend {
+                results.push(Some(424242)); // pre-existing element must be preserved
+                pool.par_extend(&mut results, n, &body);
+            } else {
+                pool.broadcast(n, |i| {
+                    body(i);
+                });
+            }
+        }))
+        .is_err();
+        if unwound != (b.bomb && b.panics.contains(&0)) {
+            oracle!("C06", "unexpected-unwind", "broadcast {bi} (n={n}): broadcast {} although panicking subset is {:?} (bomb payload: {})", if unwound { "unwound" } else { "returned normally" }, b.panics, b.bomb);
         }
         // ---- the caller has resumed
         if out_of_range.load(SeqCst) != usize::MAX {
@@ -294,7 +318,7 @@ fn main() {
             } else {
                 "<non-string panic>".to_owned()
             };
-            if msg.contains(loopdrv::INJECTED_PANIC) || msg.starts_with("Divan benchmarking thread") || log::in_quiet_section() {
+            if info.payload().is::<Bomb>() || msg.contains(loopdrv::INJECTED_PANIC) || msg.starts_with("Divan benchmarking thread") || log::in_quiet_section() {
                 return;
             }
             if !first.swap(true, SeqCst) {
